@@ -459,8 +459,9 @@ impl World for Acct {
             }
         }
         let mut policies = vec![];
-        for _ in 0..self.np {
-            policies.push(e.register(wrap::NopPolicy, ()));
+        for k in 0..self.np {
+            // the second policy fails in its uninstall hook
+            policies.push(if k == 1 { e.register(wrap::FailingUninstallPolicy, ()) } else { e.register(wrap::NopPolicy, ()) });
         }
         let mut sv: SVec<Signer> = SVec::new(&e);
         sv.push_back(signers[0].clone());
